@@ -388,3 +388,35 @@ pub fn kept_files(es: &[PlistEntry]) -> Vec<usize> {
     }
     out
 }
+
+// ---------------- pkg_summary (C07, C08, C09) ----------------
+pub const SUM_VARS: &[(&str, u8)] = &[("BUILD_DATE", 0), ("CATEGORIES", 0), ("COMMENT", 0), ("CONFLICTS", 2), ("DEPENDS", 2), ("DESCRIPTION", 2),
+    ("FILE_CKSUM", 0), ("FILE_NAME", 0), ("FILE_SIZE", 1), ("HOMEPAGE", 0), ("LICENSE", 0), ("MACHINE_ARCH", 0), ("OPSYS", 0), ("OS_VERSION", 0),
+    ("PKG_OPTIONS", 0), ("PKGNAME", 0), ("PKGPATH", 0), ("PKGTOOLS_VERSION", 0), ("PREV_PKGPATH", 0), ("PROVIDES", 2), ("REQUIRES", 2), ("SIZE_PKG", 1), ("SUPERSEDES", 2)];
+pub const SUM_REQUIRED: &[&str] = &["BUILD_DATE", "CATEGORIES", "COMMENT", "DESCRIPTION", "MACHINE_ARCH", "OPSYS", "OS_VERSION", "PKGNAME", "PKGPATH", "PKGTOOLS_VERSION", "SIZE_PKG"];
+#[derive(Debug, PartialEq, Clone)]
+pub enum SErr { ParseLine, ParseVariable, ParseInt, Incomplete(String) }
+/// C08: parse one entry text -> ordered map name -> lines (canonical order = SUM_VARS order)
+pub fn summary_parse(text: &str) -> Result<Vec<(String, Vec<String>)>, SErr> {
+    let mut m: std::collections::BTreeMap<usize, Vec<String>> = std::collections::BTreeMap::new();
+    for line in text.lines() {
+        let Some((k, v)) = line.split_once('=') else { return Err(SErr::ParseLine) };
+        let Some(idx) = SUM_VARS.iter().position(|(n, _)| *n == k) else { return Err(SErr::ParseVariable) };
+        match SUM_VARS[idx].1 {
+            0 => { m.insert(idx, vec![v.to_string()]); }
+            1 => { let n: i64 = v.parse().map_err(|_| SErr::ParseInt)?; m.insert(idx, vec![n.to_string()]); }
+            _ => { m.entry(idx).or_default().push(v.to_string()); }
+        }
+    }
+    for r in SUM_REQUIRED {
+        let idx = SUM_VARS.iter().position(|(n, _)| n == r).unwrap();
+        if !m.contains_key(&idx) { return Err(SErr::Incomplete(r.to_string())); }
+    }
+    Ok(m.into_iter().map(|(i, v)| (SUM_VARS[i].0.to_string(), v)).collect())
+}
+/// C07: canonical text of an entry: one VAR=value line per value, variables in pkg_summary order
+pub fn summary_render(e: &[(String, Vec<String>)]) -> String {
+    let mut s = String::new();
+    for (k, vs) in e { for v in vs { s.push_str(k); s.push('='); s.push_str(v); s.push('\n'); } }
+    s
+}
